@@ -4,7 +4,7 @@ From Coq Require Import List NArith Bool Lia.
 Import ListNotations.
 From Snaps Require Import Base.Bytes Base.Lines Base.Dec Base.Assoc.
 From Snaps Require Import Model.Frame Model.PathModel Model.Mode Model.Api.
-From Snaps Require Import Proofs.BytesP Proofs.LinesP Proofs.FrameP Proofs.ApiP Proofs.HistoryP.
+From Snaps Require Import Proofs.BytesP Proofs.LinesP Proofs.FrameP Proofs.ApiP Proofs.HistoryP Proofs.UpdateHistoryP.
 Local Open Scope string_scope.
 
 (* Two processes. The first runs history h (any interleaving of tests, any mix of
@@ -23,6 +23,21 @@ Theorem C01_replay_after_create : forall s0 h e2,
   Forall silent_pass (snd (run t0 h)) /\ s_fs (fst (run t0 h)) = s_fs s1.
 Proof. exact replay_after_create. Qed.
 Print Assumptions C01_replay_after_create.
+
+(* The same conclusion when the recording run also REWRITES entries (update mode: outcomes passed,
+   added or updated), for files that are sequences of well-formed entries, under header-collision
+   freedom (no body line of any file or value equals a header in play: finding K2 shows it is needed)
+   and one value per slot within the history (the same test executed twice records the same values). *)
+Theorem C01_replay_after_update : forall H s0 h e2,
+  fresh s0 -> headers_ok H -> efs_ok H (s_fs s0) ->
+  Forall hist_op_ok h -> Forall has_value h ->
+  Forall rec_ok_upd (snd (run s0 h)) ->
+  Forall (fact_ok H) (facts s0 h) -> consistent (facts s0 h) ->
+  let s1 := fst (run s0 h) in
+  let t0 := replay_start s1 e2 in
+  Forall silent_pass (snd (run t0 h)) /\ s_fs (fst (run t0 h)) = s_fs s1.
+Proof. exact replay_after_update. Qed.
+Print Assumptions C01_replay_after_update.
 
 (* the storage/compare pipeline: what is written for a value reads back as that value *)
 Theorem C01_write_then_read : forall f tid body,
